@@ -42,7 +42,7 @@ partial def loop (h : IO.FS.Stream) (out : IO.FS.Stream) (st : Stats) (tbl : Tex
   let line := line.trimAscii.toString
   if line.isEmpty then
     loop h out st tbl maxReport
-  else if line.startsWith "unit " || line.startsWith "quantity " || line.startsWith "base " then
+  else if line.startsWith "unit " || line.startsWith "quantity " || line.startsWith "base " || line.startsWith "kind " || line.startsWith "implfrom " then
     -- table rows (the Lean-generated dump) precede the cases of the text drivers
     match tbl.absorb line with
     | some t => loop h out st t maxReport
